@@ -62,6 +62,27 @@ def main():
               "  instance is now a C08 violation (`serialize-raised`).",
               "* mutant serialize-adds-random-nonce first ended as a non-reproducing replay (tripwire bytes depended on the",
               "  worker's history): fixed by restarting the tripwire stream with every run.",
+              "* round 2 (changes `*-r2A/B`, written by sub-agents told which mechanisms were already taken): eight of 22 were",
+              "  first missed or ended as harness errors. C01-r2A and C03-r2A (module-level caches keyed without the",
+              "  parameter seeds) only fail after an *earlier run of the same process*: chunks now run as one forked",
+              "  process each and a violation that does not replay alone is replayed with its chunk's earlier runs as a",
+              "  minimised *prelude*. C01-r2B / C10-r2B / C11-r2A (scalar 0 treated as 'no scalar' on restore or",
+              "  serialize): an honest persist/restore that raises is now a violation in C01 and C10, and",
+              "  `from_serialized()` hitting the library's must-not-be-used entropy stub is a C11 violation. C02-r2A (side",
+              "  byte rewritten to exactly 0x53): side faults are biased to the letters that matter. C02-r2B (identities",
+              "  stored as latin-1, restored as utf-8): configuration differences now include *near-miss* byte strings",
+              "  (transcoded, NUL/space-extended, case-swapped, hex text). C08-r2B (restore cache keyed without the side):",
+              "  the peer sometimes draws from the same stuck RNG stream as the victim and is restored first. C09-r2B",
+              "  (fingerprint memo keyed by `id(params)`): scenarios with `ephemeral_params` build custom parameter sets",
+              "  per session and free them with it, so addresses are reused; instances of such a violation that do not",
+              "  replay in a fresh interpreter are reported as notes as long as another instance replays exactly.",
+              "  C11-r2B (off-by-one that also makes width 1 loop forever): the entropy seam now refuses more than 4 096",
+              "  draws per session and the check reports `sampler-does-not-terminate` instead of hanging.",
+              "* round-2 change C03-r2B (`unbiased_randrange` shifting instead of masking, changing which x a given",
+              "  entropy stream yields on custom groups with non-byte-aligned q) was **not kept**: it stays an exact",
+              "  rejection sampler and the message is still x*G + w*M for the x the node reports, so it breaks neither C03",
+              "  nor C11 as stated (its demo hard-codes the old derivation of x); all eleven checks stay at exit 0 on it,",
+              "  as they should.",
               "* two of my own mutants were wrong and were corrected: a lower-bound-only Ed25519 length test and lenient",
               "  integer decoders alone do not break C02 (raw bytes are hashed), the former does not even break C05 after",
               "  the fix (re-encoding comparison) and is now kept as an equivalence test.", ""]
